@@ -31,3 +31,12 @@ add("C14", "property-based testing: generated artefacts of steered lengths -> st
 add("C20", "model-based testing: operation sequences against a Vec reference model, bounded-exhaustive up to length 5/6 over 9 operations, random beyond",
     "Stateful model-based search: every push/remove sequence up to length 5 (quick) or 6 (thorough) over a 3-type x 2-value alphabet is enumerated and observed after each step; longer random histories over 12 types; the equality relation and the encoded order are checked too.",
     "The Vec model is the specification; " + DEC + " for the encoded order.", "DESIGN.md §4 C20")
+add("C03", "property-based testing with differential validators: generated issuer names / key-id methods / origins (generated, re-imported, foreign CA forged and pre-accepted by OpenSSL) -> byte comparison of issuer vs subject Name, AKI vs SKI, OpenSSL and webpki path validation",
+    "Generated-input search over issuer shapes, including foreign CA certificates with repeated attribute types and multi-valued RDNs; oracles are byte equality of raw Name ranges against the original issuer certificate and two independent path validators. Refused imports are allowed by the property and counted.",
+    DEC + "; OpenSSL X509_verify_cert; webpki verify_for_usage; leaves generated inside what both support.", "DESIGN.md §4 C03")
+add("C15", "property-based testing with metamorphic relations: repeated calls, generated prefix histories, multi-threaded runs sharing keys and issuer, and fresh child processes must all give identical to-be-signed bytes",
+    "Metamorphic relation 'same inputs => same TBS bytes' under four perturbations (repetition, call history, concurrency with 2..16 threads, three fresh processes with different hash seeds); thread interleavings are sampled by repetition, not enumerated.",
+    DEC + " for locating the signed byte range; the OS scheduler for interleavings.", "DESIGN.md §4 C15")
+add("C17", "property-based testing: generated certificates and OpenSSL-accepted foreign CA certificates -> rcgen import -> field-by-field comparison with the generating parameters; PEM = DER; re-issue round trip",
+    "Round trip parameters -> certificate -> import over the supported sub-space of C02 plus foreign CA certificates built by the harness encoder and pre-accepted by OpenSSL.",
+    DEC + " and encoder; OpenSSL as gatekeeper for forged inputs.", "DESIGN.md §4 C17")
